@@ -324,6 +324,10 @@ def feval(t, env, eng, depth=0):
             if a >= hi: return hi
             return int(a)
         return None
+    if k == 'fld' and t[1][0] == 'call' and isinstance(t[1][1], str) and t[1][1].rsplit("::", 1)[-1] == 'sin_cos' and len(t[1][2]) == 1 and t[2] in (0, 1):
+        a = feval(t[1][2][0], env, eng, depth + 1)
+        if a is None: return None
+        return math.sin(a) if t[2] == 0 else math.cos(a)
     if k == 'call' and isinstance(t[1], str):
         nm = t[1].rsplit("::", 1)[-1]
         args = [feval(x, env, eng, depth + 1) for x in t[2]]
